@@ -56,6 +56,16 @@ Definition kstep (compact : bool) (ts : Z) (c : kcmd) (m : sstore) : sstore * re
   match c with
   | KCinvalid => (m, RErr)
   | KCset k v => if negb (key_ok k) || negb (value_ok v) then (m, RErr) else (aput bytes_eqb k (0, v) m, RInt 1)
+  | KCsetopt k v dur nx xx =>
+      (* SET key value [EX seconds] [NX|XX]: NX writes only an absent key, XX only a present one; the expiry is
+         replaced (EX) or removed; reply 1 = written, 0 = condition not met *)
+      if negb (value_ok v) || negb (key_ok k) then (m, RErr)
+      else if (nx && is_present compact ts m k) || (xx && negb (is_present compact ts m k)) then (m, RInt 0)
+      else if 0 <? dur then
+        if compact then
+          if when_overflows (sec_of ts + dur) then (m, RErr) else (aput bytes_eqb k (sec_of ts + dur, v) m, RInt 1)
+        else if int64_max <? sec_of ts + dur then (m, RErr) else (aput bytes_eqb k (0, v) m, RInt 1)
+      else (aput bytes_eqb k (0, v) m, RInt 1)
   | KCsetex k dur v =>
       if (dur <=? 0) || negb (key_ok k) || negb (value_ok v) then (m, RErr)
       else if compact then
